@@ -148,7 +148,13 @@ def behaviour(doc, spec, path, ops, rep, record):
 
     proxy = _CountOnly(rep if record else None)
 
+    # the initial state of the environment shows every host as the file defines it ...
+    from .check_c09 import check_initial
+    check_initial(h, env.scenario, proxy)
+
     def on_rec(hh, rec, twin):
+        # ... and its dynamics follow the file's hosts (C01 oracle) and rules (C02 oracle)
+        O.c01(hh, rec, twin, proxy)
         O.c02(hh, rec, twin, proxy)
     for op in ops:
         res = walk.run_history(h, [tuple(op)], on_rec, None, both_sides=False, do_gen=False)
@@ -171,6 +177,24 @@ def run_case(case, rep, record=True):
             doc = spell(src["doc"], case.get("spelling", 0))
             tmp = path = os.path.join(docs.tmpdir(), f"c17_{os.getpid()}.yaml")
             docs.dump(doc, path, flow=src.get("flow"), rotate=case.get("rotate", 0))
+        sib = None
+        if case.get("sibling") and src["kind"] != "shipped" and max(len(doc[k_]) for k_ in ("os", "services", "processes")) > 1:
+            # another file loaded earlier in the same process: the same document with its OS / service / process
+            # lists in the opposite order (what one file says must not depend on what was loaded before it)
+            import copy
+            d2 = copy.deepcopy(doc)
+            for k_ in ("os", "services", "processes"):
+                d2[k_] = list(reversed(d2[k_]))
+            p2 = os.path.join(docs.tmpdir(), f"c17_{os.getpid()}_sibling.yaml")
+            docs.dump(d2, p2)
+            try:
+                sib = nasim.load(p2)
+            except Exception:
+                sib = None
+            finally:
+                os.unlink(p2)
+            if record and sib is not None:
+                rep.count("sibling-document-loaded-first")
         try:
             try:
                 scn = nasim.load_scenario(path)
@@ -185,7 +209,7 @@ def run_case(case, rep, record=True):
                 for f in feats:
                     rep.count("feature:" + f)
                 rep.count("source:" + src["kind"])
-            if feats & {"host-deny-list", "asymmetric-rule"}:
+            if feats & {"host-deny-list", "asymmetric-rule"} or sib is not None:
                 # C02-oracle walk (near-miss ops first) on the loaded environment
                 spec2 = M.Spec.from_doc({k: v for k, v in doc.items() if not k.startswith("_")})
                 ops = case["ops"] or []
@@ -235,6 +259,7 @@ def _shard(shard, seed, tier, n_cases):
             (2, st.tuples(st.just("g"), st.integers(0, 23), engine.BIG, engine.SIDE, engine.KS)),
             (1, st.just(("x",))), (1, st.tuples(st.just("v"), st.integers(0, 59)))]), min_size=8, max_size=40),
         "modes": st.just({}),
+        "sibling": st.sampled_from([False, False, True]),
     })
     engine.drive(_Runner(rep), strat, n_cases, seed)
     return rep
